@@ -231,9 +231,9 @@ def worker(prop: str, tier: str, idx: int, nworkers: int, seed: int, ncases: int
                 # the observed call (a result must not depend on what was asked before); drawn from a separate stream so
                 # that the generated traces themselves do not change
                 rng2 = case_rng(seed, prop + ":history", no)
-                if isinstance(case, dict) and "pre" not in case and rng2.random() < 0.25:
+                if isinstance(case, dict) and "pre" not in case and rng2.random() < 0.3:
                     from harness.props import common as _C
-                    case["pre"] = rng2.sample(_C.PRE_CALLS, rng2.randint(1, 3))
+                    case["pre"] = rng2.sample(_C.PRE_CALLS, rng2.randint(1, 4))
             r = run_one(mod, drv, case)
             r["no"] = no
             if r["status"] != "ok":
